@@ -143,7 +143,23 @@ def h_roundtrip(mode, max_bytes):
             if text.encode() != body:
                 return True, "%s mode writes %r (no marker) for %r" % (mode_s, text, line), "escape:plain-differs:%s" % mode_s.lower()
         return False, "", ""
+    def mk_chars(widths, nl):
+        def setup(ctx):
+            from mir_models import utf8_bytes
+            chars = [ctx.sym_char("c%d" % i, w) for i, w in enumerate(widths)]
+            body = []
+            for ch in chars:
+                ctx.add(ch.z() != 10)
+                body += utf8_bytes(ctx, ch)
+            ctx.notes["body"] = body
+            return [escaper(mode), Slice(body + ([SInt(10, "u8")] if nl else []), "u8")]
+        return setup
+
     inputs = []
+    # valid UTF-8 lines by character shape (beyond the all-bytes bound): 2–3 chars, at least one multi-byte
+    for sh in e2.str_shapes(max_bytes + 2, max_chars=3):
+        if len(sh) >= 2 and max(sh) >= 2 and sum(sh) > max_bytes:
+            inputs.append(("utf-8 char widths=%s" % sh, mk_chars(sh, False)))
     for n in range(0, max_bytes + 1):
         for nl in (False, True):
             if n >= 3:
@@ -152,7 +168,8 @@ def h_roundtrip(mode, max_bytes):
                 inputs.append(("bytes=%d newline=%s" % (n, nl), mk(n, nl)))
     h = e2.Harness("escape_roundtrip_%s" % mode.lower(), drive, inputs, post, native="escaped_expectation", judge=judge,
                    describe="printable output; escaper ∘ decoder = identity (marked lines) / text == line (unmarked lines)",
-                   bound="all byte lines of <= %d bytes (any byte values, valid and invalid UTF-8), with and without final newline, %s mode" % (max_bytes, mode))
+                   bound="all byte lines of <= %d bytes (any byte values, valid and invalid UTF-8), with and without final newline, plus all valid "
+                         "UTF-8 lines of 2–3 chars and <= %d bytes, %s mode" % (max_bytes, max_bytes + 2, mode))
     h.models_cls = EscModels
     return h
 
